@@ -7,6 +7,7 @@ import (
 	"runtime"
 
 	"github.com/issue9/mux/v9"
+	"github.com/issue9/mux/v9/types"
 
 	"verifharness/mon"
 	"verifharness/ref"
@@ -55,6 +56,8 @@ type c16World struct {
 	nf, trace  *mon.Hnd
 	g404       *mon.Hnd
 	prefix     string // path prefix that reaches the router
+	nested     *mux.Router[*mon.Hnd]
+	nestedSaw  string
 }
 
 func buildC16(kind string, opt bool) *c16World {
@@ -111,6 +114,25 @@ func buildC16(kind string, opt bool) *c16World {
 			w.m405 = b.H
 		}
 	}
+	// /nest/{id}: the handler serves an inner router and afterwards reads its own parameters again
+	inner := mon.NewEnv()
+	w.nested = inner.NewRouter("inner")
+	w.nested.Handle("/in/{x}", inner.NewHnd(mon.KRoute, "/in/{x}"), nil, "GET")
+	nh := w.env.NewHnd(mon.KRoute, "/nest/{id}")
+	var outer types.Route
+	w.env.OnCallRoute = func(rt types.Route, h *mon.Hnd) {
+		if h != nil && h.Base == nh {
+			outer = rt
+		}
+	}
+	nh.Run = func(rw http.ResponseWriter, rq *http.Request, _ *mon.Hnd) {
+		mon.Do(w.nested, mon.Req{Method: "GET", Path: "/in/5"}) // takes another context from the pool while ours is in use
+		m := map[string]string{}
+		outer.Params().Range(func(k, v string) { m[k] = v })
+		w.nestedSaw = fmtParams(m)
+		rw.WriteHeader(200)
+	}
+	r.Handle("/nest/{id}", nh, nil, "GET")
 	return w
 }
 
@@ -244,6 +266,20 @@ func (w *c16World) inject(c *Ctx, site c16Site, pv panicValue) {
 		c.Class("recovered")
 	} else {
 		c.Class("passed_through")
+	}
+	// the request context went back to the pool exactly once: two contexts taken now are distinct objects
+	a, b := types.NewContext(), types.NewContext()
+	if a == b {
+		c.Violate("after the panic the context pool hands out the same context twice (returned to the pool twice)", det)
+	}
+	a.Destroy()
+	b.Destroy()
+	// a handler that serves another router while it is running keeps its own route data
+	if w.nested != nil {
+		n := mon.Do(w.serve, mon.Req{Method: "GET", Path: w.prefix + "/nest/77"})
+		if n.Panicked || w.nestedSaw != `{id:"77"}` {
+			c.Violate("after the panic a handler that serves a nested router sees foreign route data: "+w.nestedSaw, det)
+		}
 	}
 	// later requests are served normally, with clean parameters
 	id := fmt.Sprint(100 + c.R.Intn(900))
